@@ -470,16 +470,24 @@ type oracleFailure struct {
 	Profile  string `json:"profile"`
 }
 
-// continuesAfterSkip: index of the first draw / action / invariant / failure event after a Skip called at the
-// top level of the test case (depth 0: not inside a Custom body, not inside an action), or -1
+// continuesAfterSkip: index of the first draw / action / invariant / failure event after a Skip called by the
+// test case itself at its top level (not inside a Custom body or an action, where a skip only rejects an attempt,
+// and not inside a cleanup function, whose skip request is honoured when the test case ends), or -1.
+// events = Run.Brk (with the end of every cleanup function marked).
 func continuesAfterSkip(events []string) int {
-	depth, inAct, skipped := 0, 0, false
+	depth, inAct, inCleanupFn, skipped := 0, 0, 0, false
 	for k, e := range events {
 		switch {
 		case e == "UCustomBegin":
 			depth++
 		case strings.HasPrefix(e, "(UCustomEnd"):
 			depth--
+		case strings.HasPrefix(e, "(URunEnd"):
+			inCleanupFn--
+		case strings.HasPrefix(e, "(URun "):
+			inCleanupFn++
+		case inCleanupFn > 0:
+			// cleanup functions legitimately run (and may do anything) after a skip
 		case strings.HasPrefix(e, "(UAct "):
 			if skipped {
 				return k
@@ -489,23 +497,11 @@ func continuesAfterSkip(events []string) int {
 			inAct--
 		case strings.HasPrefix(e, "(USkip") && depth == 0 && inAct == 0:
 			skipped = true
-		case skipped && (strings.HasPrefix(e, "(UDraw") || e == "UChk" || strings.HasPrefix(e, "(USignal")) && !inCleanup(events, k):
+		case skipped && (strings.HasPrefix(e, "(UDraw") || e == "UChk" || strings.HasPrefix(e, "(USignal")):
 			return k
 		}
 	}
 	return -1
-}
-
-// inCleanup: event k lies inside a cleanup function (cleanups legitimately run after a skip)
-func inCleanup(events []string, k int) bool {
-	n := 0
-	for _, e := range events[:k] {
-		switch {
-		case strings.HasPrefix(e, "(URun") || e == "UCleanupBegin":
-			n++
-		}
-	}
-	return n > 0
 }
 
 // fatalSite: kind and site id of the last fatal / panic signal of an invocation ("" when it has none)
@@ -640,9 +636,9 @@ func cmdCheckOracle(args []string) {
 			// a test case that called Skip itself (outside Custom bodies and actions, where a skip only rejects an
 			// attempt) ends there: nothing of it runs afterwards and it is not counted as valid
 			for j, rr := range o.Runs {
-				if k := continuesAfterSkip(rr.Events); k >= 0 {
+				if k := continuesAfterSkip(rr.Brk); k >= 0 {
 					add("C09", "a test case went on after it had skipped itself (a skipped case counted as run)", p, checks, base, sh,
-						fmt.Sprintf("invocation %d: event %d %s follows the skip; events %s", j, k, rr.Events[k], runEndedHow(rr)), i)
+						fmt.Sprintf("invocation %d: event %d %s follows the skip; events %s", j, k, rr.Brk[k], strings.Join(rr.Brk, ";")), i)
 					break
 				}
 			}
@@ -780,22 +776,11 @@ func cmdCheckOracle(args []string) {
 }
 
 // rejectedAttemptEffects names the (known) input class in which a rejected attempt left a trace on the
-// test state that its pruned bits no longer reproduce: a non-fatal failure signalled by a cleanup
-// function of a rejected Custom attempt, or a cleanup registered / context created by a rejected step.
+// test state that its pruned bits no longer reproduce: a cleanup registered / context created by a rejected
+// state-machine step.  (A non-fatal failure signalled by a cleanup function of a rejected Custom attempt used
+// to be a second class; it is repaired in /repo a8d7609 and is an ordinary violation if it returns.)
 func rejectedAttemptEffects(events []string) string {
 	for i, e := range events {
-		if e == "(UCustomEnd 1)" {
-			// the cleanups of the inner T follow immediately
-			for j := i + 1; j < len(events); j++ {
-				if strings.HasPrefix(events[j], "(URun") || strings.HasPrefix(events[j], "(ULog") {
-					continue
-				}
-				if strings.HasPrefix(events[j], "(USignal KError") {
-					return "a cleanup function of a rejected Custom attempt signalled a non-fatal failure"
-				}
-				break
-			}
-		}
 		if strings.HasPrefix(e, "(UActEnd") && strings.HasSuffix(e, " 2)") {
 			for j := i - 1; j >= 0 && !strings.HasPrefix(events[j], "(UAct "); j-- {
 				if strings.HasPrefix(events[j], "(UReg") || events[j] == "UCtxNew" {
